@@ -243,6 +243,8 @@ pub struct Env {
     loops: Vec<LoopK>,
     flows: usize,
     pub ncells: usize,
+    /// the program stores to a name whose latest meaning is a word: the compiler refuses the source
+    pub rejected: bool,
 }
 
 #[derive(Clone, Debug)]
@@ -291,6 +293,8 @@ pub struct Prog {
     pub defs: Vec<Vec<R>>,
     pub top: Vec<R>,
     pub ncells: usize,
+    /// the source is refused at build time (a store to a name that means a word): nothing of it runs
+    pub rejected: bool,
 }
 
 /// Static name resolution exactly as a one-pass dictionary does it: latest definition so
@@ -408,6 +412,10 @@ pub fn resolve(v: &[N], env: &mut Env, defs: &mut Vec<Vec<R>>) -> Option<Vec<R>>
             }
             N::Store(nm) => match env.dict.iter().rev().find(|e| e.0 == *nm) {
                 Some((_, Ent::Var(c))) => R::Store(*c),
+                Some((_, Ent::Def(_))) => {
+                    env.rejected = true;
+                    R::Prim("drop")
+                }
                 _ => return None,
             },
             N::Wrap(..) => return None,
@@ -431,7 +439,7 @@ pub fn resolve_program(v: &[N]) -> Option<Prog> {
     let mut env = Env::default();
     let mut defs = vec![];
     let top = resolve(v, &mut env, &mut defs)?;
-    Some(Prog { defs, top, ncells: env.ncells })
+    Some(Prog { defs, top, ncells: env.ncells, rejected: env.rejected })
 }
 
 // ---------------------------------------------------------------- structural evaluator
